@@ -209,6 +209,25 @@ def shared_opts():
             'mask_freqs_list': [0.25, 0.1, 0.04, 0.02, 0.01], 'conditions': ['is_good>=0', 'duration>3']}
 
 
+def scribble(o):
+    """Overwrite every writable ndarray reachable from a result; returns how many were overwritten."""
+    n = 0
+    if isinstance(o, np.ndarray):
+        if o.flags.writeable and o.size and o.dtype.kind in 'fiub':
+            try:
+                o[...] = (np.nan if o.dtype.kind == 'f' else 1)
+                n += 1
+            except (ValueError, TypeError):
+                pass
+    elif isinstance(o, (tuple, list)):
+        for v in o:
+            n += scribble(v)
+    elif isinstance(o, dict):
+        for v in o.values():
+            n += scribble(v)
+    return n
+
+
 def session_activity(rng):
     """Unrelated things a session does between two identical calls: none of it may change the second result."""
     from emd import sift as S, cycles as C
@@ -264,6 +283,14 @@ def run_entry(ctx, name, build, rng, shared, round_seed):
         return
     ctx.count('sanitized_calls_ok')
     if det:
+        # what the caller does with a result is the caller's business: keep a copy, then overwrite every returned array in
+        # place - if a result aliases internal state (a cache, a module-level default, ...) the repeated call shows it
+        import copy as _copy
+        kept = _copy.deepcopy(res) if not hasattr(res, 'toarray') else res.copy()
+        scribbled = scribble(res)
+        ctx.count('returned_arrays_scribbled', scribbled)
+        after = [deep_digest(a) for a in args], {k: deep_digest(v) for k, v in kwargs.items()}
+        res = kept
         session_activity(rng)
         try:
             with watchdog(120):
@@ -333,6 +360,20 @@ def layout_checks(ctx, rng, shared, round_seed):
                 continue
             ctx.violation('layout-accepted:%s:%s' % (name, lay), '%s processed multi-column / wrongly oriented input of shape %s instead of '
                           'rejecting it (returned %s)' % (name, layout(x, lay).shape, getattr(first(out), 'shape', None)), case)
+        if base is not None:
+            # a rejected call must leave nothing behind: the accepted layout still gives the same result afterwards
+            try:
+                with quiet(), watchdog(120):
+                    again = f(ro(layout(x, 'vec')))
+                ctx.count('calls_repeated_after_rejected_input')
+                if not same_result(base, again):
+                    ctx.violation('state-after-rejection:%s' % name, '%s gives a different result after calls that were rejected for their layout' % name,
+                                  {'kind': 'layout', 'routine': name, 'layout': 'after-reject', 'round_seed': round_seed})
+            except WatchdogTimeout:
+                ctx.count('watchdog')
+            except Exception as e:
+                ctx.violation('state-after-rejection:%s' % name, '%s fails (%s) after calls that were rejected for their layout' % (name, type(e).__name__),
+                              {'kind': 'layout', 'routine': name, 'layout': 'after-reject', 'round_seed': round_seed})
     # vector == single column
     ph = gens.synthetic_phase(rng, ncycles=5)
     lab = C.get_cycle_vector(ph, return_good=False).reshape(-1)
